@@ -25,7 +25,7 @@ def judge(ctx, label, cases):
             noinput = True
         if what:
             nb += 1
-            if nb <= 30:
+            if len(ctx.violations) < 40:
                 ctx.report(what, "jsonlen:" + txt.hex(), {"text_hex": txt.hex(), "text": txt.decode("latin1"), "S": s.decode("latin1"), "sep": sep.decode("latin1"),
                                                        "trail": t.decode("latin1"), "implementation": g, "model": m, "expected": want, "found_in": label}, case=txt, no_input=noinput)
     # the prefix of that length is accepted with the same meaning: same event stream as S alone
